@@ -34,6 +34,17 @@ Proof.
   - reflexivity.
 Qed.
 
+(* FINDING: on the root element itself the model (as the code: root_style = {'font_size': 16}) resolves rem in
+   EVERY property against the initial 16px, although CSS Values 3 5.1.1 makes that exception for the font-size
+   property only: with font-size: 10px on the root, margin-left: 2rem is 32px instead of 20px *)
+Theorem rem_on_root_element_refuted :
+  exists own v, ~ px_is (length (element_env true own own (1 # 2) (1 # 2)) None (LDim v Rem)) (v * own).
+Proof. exists 10, 2. intro H. vm_compute in H. discriminate H. Qed.
+(* ... on every other element rem is the root's computed font size *)
+Theorem rem_on_other_elements own doc_root exr chr v :
+  px_is (length (element_env false own doc_root exr chr) None (LDim v Rem)) (v * doc_root).
+Proof. apply (rem_against_root (element_env false own doc_root exr chr) None v). Qed.
+
 (* absolute units are fixed multiples of the pixel: 1in = 96px = 72pt = 6pc = 2.54cm = 25.4mm = 101.6q *)
 Theorem absolute_units e fs v u f : to_pixels u = Some f -> px_is (length e fs (LDim v u)) (v * f).
 Proof.
